@@ -420,8 +420,13 @@ def multi(os):
     return ("multi", tuple(sorted(uniq, key=repr)))
 
 
+TRANSPARENT_OWNERS = ("std::boxed::Box", "std::ptr::Unique", "std::ptr::NonNull", "core::ptr::Unique", "core::ptr::NonNull")
+
+
 def project(o, name, of=""):
     k = o[0]
+    if of in TRANSPARENT_OWNERS:
+        return o  # Box<T> internals (`.0.pointer`) produced by deref elaboration
     if k == "env":
         return ("upvar", strip_ref_prefix(name))
     if k in ("agg", "closure"):
